@@ -111,7 +111,7 @@ def h_rescale(ctx, skel, intervals, iterations, segsites):
 
 def cases(tier):
     cs = []
-    for sk in ("cat3", "mutation_above_root", "bal4", "two_tree") + \
+    for sk in ("cat3", "mutation_above_root", "local_root_mutation", "bal4", "two_tree") + \
             (("cat4", "two_parents") if tier == "thorough" else ()):
         for k, it in ((1, 1), (1, 2), (2, 1)):
             for seg in (False, True):
